@@ -307,3 +307,12 @@ Qed.
 Lemma prune_none : forall {P} active pb (pieces : list P),
   prune None active pb pieces = Some (pb, pieces).
 Proof. reflexivity. Qed.
+
+(* what is attached to the result: the re-indexed bounds when some partition is
+   kept, nothing when none is (the result is then one empty stand-in partition) *)
+Lemma expose_some : forall {P} (pb : colbounds) (kept : list P),
+  pb <> [] -> kept <> [] -> expose pb kept = pb.
+Proof. intros P [|x pb] [|k kept] H1 H2; try congruence; reflexivity. Qed.
+
+Lemma expose_none : forall {P} (pb : colbounds), expose pb (@nil P) = [].
+Proof. intros P [|x pb]; reflexivity. Qed.
